@@ -1,4 +1,4 @@
-From C17 Require Import Model Model2 Model3.
+From C17 Require Import Model Model2 Model3 Model4.
 Require Extraction.
 Require Import ExtrOcamlBasic.
 Extraction "model.ml" bint_zero bint_one fromuinteger frominteger touinteger tointeger
@@ -7,4 +7,6 @@ Extraction "model.ml" bint_zero bint_one fromuinteger frominteger touinteger toi
   biszero bisone bisminusone biseven bisodd bint_mininteger bint_maxinteger babs bmax bmin
   udivmod udiv umod tdivmod idivmod bidiv bmod ipow upowmod compress
   tobase frombase bn_from_bin bn_from_hex bn_from_dec tohexint tobinint todecint
+  tobint bnew fromstring bint_tonumber madd msub mmul mlt mle meq btrunc bfloor bceil
+  bfromle bfrombe btole btobe todecsci_int demotefloat canbeintegral
   BINT_SIZE uval sval.
